@@ -2,7 +2,7 @@ import XixiKV.Proofs.EnginePolicy
 import XixiKV.Properties.C01
 import XixiKV.Properties.C02
 import XixiKV.Properties.C05
-import XixiKV.Proofs.TransEq
+import XixiKV.Proofs.TransEqNpot
 import XixiKV.Properties.C10
 /-!
 # C14 — results do not depend on index type, shard count, I/O back-end; file-size limit and sync
